@@ -128,7 +128,8 @@ Inductive value : Type :=
 | VSym (name : list Z)
 | VPair (h t : value)                           (* SexpPair{Head, Tail} *)
 | VArr (l : list value)
-| VHash (kvs : list (value * value)).           (* type "hash", keys in KeyOrder *)
+| VHash (kvs : list (value * value))            (* type "hash", keys in KeyOrder *)
+| VBStr (s : list sitem).                       (* a string carrying the backtick flag (read from a `...` literal) *)
 
 Definition str_false : list Z := [102; 97; 108; 115; 101].
 
@@ -163,11 +164,12 @@ Fixpoint pr (tail : bool) (v : value) : list Z :=
                   | [] => [125]
                   | (k, x) :: r =>
                       (match k with
-                       | VStr s => quote_str is_print s ++ [58]       (* strconv.Quote(s.S) + ":" *)
+                       | VStr s | VBStr s => quote_str is_print s ++ [58]   (* strconv.Quote(s.S) + ":" *)
                        | VSym n => n ++ [58]
                        | _ => pr false k ++ [58]
                        end) ++ pr false x ++ (match r with [] => [125] | _ => 32 :: pairs r end)
                   end) kvs
+    | VBStr s => 96 :: map raw_item s ++ [96]    (* SexpStr.SexpString with the backtick flag: verbatim between backticks *)
     end in
   if tail then
     match v with
@@ -216,6 +218,21 @@ Inductive hop : Type := HSet (k v : value) | HDel (k : value).
 Definition hist_apply (ops : list hop) : value :=
   VHash (fold_left (fun h o => match o with HSet k v => hist_set k v h | HDel k => hist_del k h end) ops []).
 
+(* slurp.go WriteToFileFunction (writef / owritef / save) on a value that is neither an array nor raw bytes:
+   the printed text, without its outer quotes or backticks when it is a string, and a newline *)
+Definition strip_outer (q : Z) (s : list Z) : option (list Z) :=
+  match s with
+  | c :: rest => if (c =? q) && (last rest 0 =? q) && (1 <=? Z.of_nat (length rest)) then Some (removelast rest) else None
+  | [] => None
+  end.
+
+Definition save_text (is_print : Z -> bool) (v : value) : list Z :=
+  let s := print is_print v in
+  (match strip_outer 34 s with
+   | Some t => t
+   | None => match strip_outer 96 s with Some t => t | None => s end
+   end) ++ [10].
+
 (* what an io.RuneScanner delivers for the printed bytes: an invalid byte arrives as U+FFFD *)
 Definition scan_text (t : list Z) : list Z := map (fun c => if c <? 0 then 65533 else c) t.
 
@@ -236,6 +253,7 @@ Fixpoint to_sexp (v : value) : sexp :=
   | VNil => SNull
   | VChar c => SChar c
   | VStr s => SStr false (map item_rune s)
+  | VBStr s => SStr true (map item_rune s)
   | VSym n => SSym false false n
   | VPair h t => SPair (to_sexp h) (to_sexp t)
   | VArr l => SArr false (map to_sexp l)
@@ -288,7 +306,7 @@ Fixpoint jv_of (v : value) : jvalue :=
   | VUint z => JUint z
   | VFloat b sci c => match c with FNaN => JNaN | FInf _ => JFloat false b | FFin _ => JFloat sci b end
   | VBool b => JBool b
-  | VStr s => JStr (map item_rune s)
+  | VStr s | VBStr s => JStr (map item_rune s)
   | VArr l => JArr (map jv_of l)
   | VHash kvs => JHash (map (fun kv => (jk_of (fst kv), jv_of (snd kv))) kvs)
   | _ => JNil
